@@ -106,6 +106,48 @@ def ite64(c, a=1, b=0):
     return z3.If(c, bv(a), bv(b))
 
 
+
+def maxbits(x, depth=6):
+    """cheap syntactic upper bound on the number of significant bits of a bit-vector term"""
+    if isc(x):
+        return x.bit_length()
+    w = x.size()
+    if depth == 0:
+        return w
+    k = x.decl().kind()
+    if k == z3.Z3_OP_BNUM:
+        return x.as_long().bit_length()
+    if k == z3.Z3_OP_CONCAT:
+        total = w
+        for ch in x.children():
+            if z3.is_bv_value(ch) and ch.as_long() == 0:
+                total -= ch.size()
+            else:
+                lead = ch.size() - maxbits(ch, depth - 1)
+                total -= lead
+                break
+        return total
+    if k == z3.Z3_OP_ZERO_EXT:
+        return maxbits(x.arg(0), depth - 1)
+    if k == z3.Z3_OP_ITE:
+        return max(maxbits(x.arg(1), depth - 1), maxbits(x.arg(2), depth - 1))
+    if k == z3.Z3_OP_BAND:
+        return min(maxbits(c, depth - 1) for c in x.children())
+    if k in (z3.Z3_OP_BOR, z3.Z3_OP_BXOR):
+        return max(maxbits(c, depth - 1) for c in x.children())
+    if k == z3.Z3_OP_EXTRACT:
+        return min(w, maxbits(x.arg(0), depth - 1))
+    if k == z3.Z3_OP_BADD:
+        return min(w, max(maxbits(c, depth - 1) for c in x.children()) + len(x.children()) - 1)
+    if k == z3.Z3_OP_BMUL:
+        return min(w, sum(maxbits(c, depth - 1) for c in x.children()))
+    if k == z3.Z3_OP_BLSHR:
+        return maxbits(x.arg(0), depth - 1)
+    if k in (z3.Z3_OP_BUDIV, z3.Z3_OP_BUDIV_I, z3.Z3_OP_BUREM, z3.Z3_OP_BUREM_I):
+        return maxbits(x.arg(0), depth - 1) if k in (z3.Z3_OP_BUDIV, z3.Z3_OP_BUDIV_I) else min(maxbits(x.arg(0), depth - 1), maxbits(x.arg(1), depth - 1))
+    return w
+
+
 class Unsupported(Exception):
     pass
 
@@ -256,6 +298,8 @@ class SymVM:
             return val
         key = ('v', val.get_id())
         if key in st.pins:
+            if st.pins[key][0] is None:
+                raise Unsupported(f'residual of symbolic {what} enumeration (more than {self.max_enum} feasible values)')
             return st.pins[key][0]
         vals = []
         extra = []
@@ -271,7 +315,14 @@ class SymVM:
         if not vals:
             raise Unsupported('infeasible state while enumerating ' + what)
         if len(vals) > self.max_enum:
-            raise Unsupported(f'symbolic {what} with more than {self.max_enum} feasible values')
+            # too many feasible values: explore the max_enum smallest ones exactly and leave the rest
+            # as an explicitly unexplored residual path
+            vals = self.smallest_values(st, val, self.max_enum, what)
+            rest = st.clone()
+            for v in vals:
+                rest.cond.append(val != v)
+            rest.pins[key] = (None, val)
+            work.append(rest)
         for v in vals[1:]:
             other = st.clone()
             other.cond.append(val == v)
@@ -281,6 +332,34 @@ class SymVM:
             st.cond.append(val == vals[0])
         st.pins[key] = (vals[0], val)
         return vals[0]
+
+    def smallest_values(self, st, val, n, what):
+        """the n smallest feasible values of val under st.cond (binary search per value)"""
+        out = []
+        lower = 0
+        while len(out) < n:
+            r, m = self.check(st.cond + [z3.UGE(val, lower)])
+            if r == z3.unknown:
+                raise Unsupported('solver timeout while enumerating ' + what)
+            if r != z3.sat:
+                break
+            hi = m.eval(val, model_completion=True).as_long()
+            lo = lower
+            # invariant: some feasible value in [lo, hi], hi feasible
+            while lo < hi:
+                mid = (lo + hi) // 2
+                r, m = self.check(st.cond + [z3.UGE(val, lo), z3.ULE(val, mid)])
+                if r == z3.unknown:
+                    raise Unsupported('solver timeout while enumerating ' + what)
+                if r == z3.sat:
+                    hi = m.eval(val, model_completion=True).as_long()
+                else:
+                    lo = mid + 1
+            out.append(hi)
+            lower = hi + 1
+            if lower > M64:
+                break
+        return out
 
     # ---------------------------------------------------------------- memory
     def check_read(self, st, addr, n):
@@ -433,9 +512,10 @@ class SymVM:
                 R[R_OF] = full >> 64
             else:
                 B, C = z3.ZeroExt(64, bv(b)), z3.ZeroExt(64, bv(c))
+                mb, mc = maxbits(b), maxbits(c)
                 if k == 'A':
                     full = B + C
-                    ovf = z3.ULT(bv(b) + bv(c), bv(b))
+                    ovf = False if max(mb, mc) < 64 else z3.ULT(bv(b) + bv(c), bv(b))
                     low = bv(b) + bv(c)
                 elif k == 'S':
                     full = B - C
@@ -443,7 +523,7 @@ class SymVM:
                     low = bv(b) - bv(c)
                 else:
                     full = B * C
-                    ovf = z3.Extract(127, 64, full) != 0
+                    ovf = False if mb + mc <= 64 else z3.Not(z3.BVMulNoOverflow(bv(b), bv(c), False))
                     low = bv(b) * bv(c)
                 if not self.wrapping(st):
                     if self.decide(st, ovf, work):
@@ -756,15 +836,15 @@ class SymVM:
             R[R_ERR] = 0
             return
         if isc(c) and c <= 64:
-            # repeated multiplication in 128 bits with sticky overflow
-            B = z3.ZeroExt(64, bv(b))
-            acc = z3.BitVecVal(1, 128)
+            # repeated 64-bit multiplication with sticky overflow
+            B = bv(b)
+            acc = z3.BitVecVal(1, 64)
             ovf = z3.BoolVal(False)
-            for _ in range(c):
+            for i in range(c):
+                if i > 0:
+                    ovf = z3.Or(ovf, z3.Not(z3.BVMulNoOverflow(acc, B, False)))
                 acc = acc * B
-                ovf = z3.Or(ovf, z3.Extract(127, 64, acc) != 0)
-                acc = z3.ZeroExt(64, z3.Extract(63, 0, acc))
-            res = z3.Extract(63, 0, acc)
+            res = acc
         elif isc(b) and b in (0, 1):
             C = bv(c)
             res = z3.If(C == 0, z3.BitVecVal(1, 64), z3.BitVecVal(b, 64))
